@@ -334,7 +334,7 @@ Proof.
   assert (Hreq : synced_recs w0 <= nlen (all_L pre) + N.of_nat (length recs1 - length (hdr meta (sd_st0 d)))).
   { unfold synced_recs. destruct (w_sync w0) as [s|] eqn:Es; [|lia].
     destruct (w_run_sync_name opt seg meta ops s Es) as [Hle Hidx]. fold w0 in Hle, Hidx.
-    destruct Hcutd as [Hsame|Hnil].
+    destruct Hcutd as [Hsame|[Hnil _]].
     - destruct (Hrel Hsame) as (Epre & Hst0 & more & Hmore).
       destruct (N.eq_dec (sy_seq s) (w_seq w0)) as [E|E].
       + destruct (gi_sync _ _ _ _ _ G0 s Es E) as (j & Hj & Hoff & Hrec). rewrite <- Epre, <- Esegs, <- Ecn in Hoff.
